@@ -336,6 +336,11 @@ def dispatcher_checks(chk, want):
         mode = rng.choice(al.MODES if want == 'rows' else al.MODES[:3])
         entry = rng.choice(['c.align_pair', 'c.align_pairs', 'c.align_pairwise', 'c.corrdist', 't.align_pair',
                             't.align_pairs', 't.align_pairwise', 'pw_align', 'nw_align', 'sw_align', 'we_align'])
+        if rng.random() < 0.15:
+            # restricted characters switched off by the empty string although the prosodic strings hold tones and boundaries at
+            # different places: nothing is restricted then, every alignment competes
+            c = dict(c, r='', proA=''.join(rng.choice('AXT_T') for _ in c['a']), proB=''.join(rng.choice('AX_TT') for _ in c['b']))
+            chk.hist['dispatcher: restricted_chars empty, tones / boundaries in the prosodic strings'] += 1
         if rng.random() < 0.2:
             # a sequence against itself with a scorer whose diagonal is NOT the best choice (mismatches or gaps score higher):
             # the identity alignment is then not the optimum, and not even a legal local alignment when self-scores are negative
@@ -630,7 +635,9 @@ def class2tokens_checks(chk):
 
 WORDS = ['tʰɔxtər', 'dɔːtər', 'hant', 'hænd', 'ʃtɛrn', 'stɑːr', 'vɔlf', 'wʊlf', 'fɪʃ', 'pisk', 'a', 'ai', 'ts',
          'waldemar', 'woldemort', 'ʒiˈvɔt', 'tɕʰjɛn⁵¹', 'pʰjɛn³⁵', 'kaːu̯ən', 'ɡəʃaft', 'mat͡ʃi', 'ʔaŋ', 'ŋ̍',
-         'ma⁵⁵ma²¹', 'θɪŋk', 'ðɪs', 'ʁoːt', 'ɾoxo', 'ɕiː', 'ɲo', 'ʋesi', 'ɦuis']
+         'ma⁵⁵ma²¹', 'θɪŋk', 'ðɪs', 'ʁoːt', 'ɾoxo', 'ɕiː', 'ɲo', 'ʋesi', 'ɦuis',
+         # decomposed spellings (base letter + combining mark that has a precomposed form)
+         'ma\u0303no', 'mane\u0301', 'c\u0327a', 'u\u0308ber', 'n\u0303u', 'po\u0303e\u0301']
 
 
 def pairwise_entry(chk, want='rows'):
@@ -660,7 +667,7 @@ def pairwise_entry(chk, want='rows'):
             chk.hist['Pairwise: segmented input (source/target notation possible)'] += 1
         mode = rng.choice(al.MODES)
         kw = dict(mode=mode, gop=rng.choice([-1, -2, -0.5, 0]), scale=rng.choice([0.5, 1.0, 0.3]),
-                  factor=rng.choice([0.3, 0.0, 1.0, 0]), restricted_chars=rng.choice(['T_', '', '_']))
+                  factor=rng.choice([0.3, 0.0, 1.0, 0, 1.5, 2.5]), restricted_chars=rng.choice(['T_', '', '_']))
         if rng.random() < 0.3:
             kw['distance'] = rng.choice([True, False])
         try:
@@ -668,8 +675,16 @@ def pairwise_entry(chk, want='rows'):
             held = copy.deepcopy(p.tokens)
             p.align(**kw)
             tokA, tokB = held[0]
+            # what the caller passed: a list is taken as it is, a string with blanks is split at them, a plain string is segmented
+            for w_, which_ in ((wa, 0), (wb, 1)):
+                passed = list(w_) if isinstance(w_, (list, tuple)) else (w_.split(' ') if ' ' in w_ else ipa2tokens(w_))
+                if want == 'rows' and list(held[0][which_]) != passed:
+                    raise AssertionError('the object holds the segments %r for the input %r (passed / segmented independently: %r)' % (list(held[0][which_]), w_, passed))
             almA, almB, sim = p.alignments[0]
             clA, clB, _ = p._alignments[0]
+        except AssertionError as ex:
+            fails.append((wa, wb, kw, str(ex)))
+            continue
         except ValueError as ex:
             if 'unknown characters' in str(ex):
                 chk.hist['rejected:sequence of unknown characters only'] += 1      # documented rejection of the class converter
